@@ -34,11 +34,28 @@ def sh(cmd, timeout=3600, cwd=None, env=None):
     return p.returncode, p.stdout
 
 
+# the generated parts of the model (rewritten from the source tree by `make gen`) and the properties whose theorems rest on them
+GENERATORS = {'prectable': ['C14', 'C15'], 'offlinegen': ['C01']}
+
+
 def ensure_build():
-    """Full (incremental) build of the Coq development, extraction and driver."""
+    """Full (incremental) build of the Coq development, extraction and driver.  The build does not stop at the first failure
+    (Makefile: every step records its outcome under build/status); whether a PROPERTY is affected is decided by obligations()."""
     t0 = time.time()
     rc, out = sh('make -C %s all' % VERIF, timeout=3000)
     return rc == 0, out, time.time() - t0
+
+
+def generator_failures(pid):
+    """the generators this property depends on that refused the current source: [(name, log tail)]"""
+    bad = []
+    for g, pids in GENERATORS.items():
+        if pid in pids:
+            path = os.path.join(VERIF, 'build', 'status', g)
+            txt = open(path).read() if os.path.exists(path) else 'no status file'
+            if not txt.startswith('ok'):
+                bad.append((g, txt[-1500:]))
+    return bad
 
 
 def obligations(pid):
